@@ -342,8 +342,8 @@ impl Check for Rates {
 
 fn cells(tier: Tier, seed: u64) -> Vec<Cell> {
     let mut v = vec![];
-    let seeds = tier.pick(24u32, 120u32);
-    let probes = tier.pick(20_000u32, 40_000u32);
+    let seeds = tier.pick(24u32, 400u32);
+    let probes = tier.pick(20_000u32, 100_000u32);
     let ps = [0.5, 0.3, 0.26, 0.13, 0.0626, 0.03, 0.01, 1e-3];
     let mk = |kind: Kind, seeds: u32, probes: u32, v: &mut Vec<Cell>| {
         let s = mix_str(seed, &format!("{:?}", kind));
@@ -385,7 +385,7 @@ fn cells(tier: Tier, seed: u64) -> Vec<Cell> {
     }
     if tier == Tier::Thorough {
         let mut g = SplitMix64(mix_str(seed, "c07-random"));
-        for _ in 0..40 {
+        for _ in 0..200 {
             // random Bloom cells from {n>=50, p>=1e-3} U {n>=200, p>=1e-5}
             let (n, p) = if g.below(2) == 0 {
                 (50 + g.below(5000) as usize, 10f64.powf(-3.0 * g.f64()) * 0.5)
